@@ -145,7 +145,20 @@ fn check_coset(c: &CosetCase, obs: &mut Obs) -> Result<(), String> {
     // the routine under test
     let rels: Vec<FreeWord> = presented_relators(c).iter().map(|w| fw(w)).collect();
     let subw: Vec<FreeWord> = sub.iter().map(|w| fw(w)).collect();
-    let ct = coset_table(c.nr_gens, &rels, &subw);
+    // The documented row limit is a legitimate way out for enumerations that are too hard, but not for
+    // a subgroup whose reference enumeration (textbook HLT) never needs more than 1500 rows: hitting
+    // 100 000 rows there means that the enumeration does not converge although the index is finite.
+    let ct = match guarded(|| coset_table(c.nr_gens, &rels, &subw)) {
+        Ok(ct) => ct,
+        Err(m) if m.contains("Reached coset table limit") => {
+            if expected <= 1500 && todd_coxeter(c.nr_gens, &c.rels, &sub, 1500).is_some() {
+                return Err(format!("coset_table gives up at its limit of 100 000 rows although [G:H] = {} and the reference enumeration never needs more than 1500 rows", expected));
+            }
+            obs.discard("Reached coset table limit (reference enumeration needs more than 1500 rows as well)");
+            return Ok(());
+        }
+        Err(m) => return Err(format!("panic: {}", m)),
+    };
     let t = read_table(&ct, c.nr_gens)?;
     ensure!(t.is_transitive(), "the action on the {} rows is not transitive", t.len());
     if let Some((k, r)) = t.relators_close(&c.rels) {
